@@ -51,4 +51,60 @@ func registerAll() {
 		assumptions: []string{stdAssume, "sequence-number wrap-around is excluded, as the property states"},
 		components:  udpComponents,
 	}
+
+	// ---- engine rpc ----
+	rpcRules := instrument.Rules{Conc: true, MapRange: true, Dial: true, Rand: true}
+	rpcHarness := []string{"rpc/zz_verif_rpc_test.go", "rpc/zz_verif_frame_test.go", "rpc/zz_verif_calls_test.go"}
+	builds["rpc"] = &build{name: "rpc", pkg: modPath + "/pkg/rpc", harness: rpcHarness,
+		extra:    map[string]string{"internal/vkgo/pkg/semaphore/zz_verif_peek.go": "harness/semaccess/zz_verif_peek.go"},
+		patterns: []string{"./pkg/rpc", "./internal/vkgo/pkg/semaphore"}, rules: rpcRules}
+	rpcComponents := map[string]string{
+		"PacketConn framing, crypto reader/writer, nonce/handshake exchange, ping/pong": "real code (source-rewritten at build time)",
+		"ClientImpl/clientConn, Server (accept, handshake, receive/send loops, worker pool, memory semaphores, shutdown), semaphore.Weighted": "real code (source-rewritten at build time)",
+		"TCP/Unix sockets": "stub: vrt/simnet (seeded segmentation, latency, short reads, corruption, reset, stall, refusal)",
+		"clock":            "testing/synctest fake clock",
+		"crypto/rand":      "testing/cryptotest.SetGlobalRandom (seeded)",
+		"sync.Pool":        "stub: per-run reuse policy (LIFO / FIFO / drop / seeded)",
+		"goroutine scheduling": "simulator (token scheduler); Go runtime in the -race configuration",
+		"RPC over UDP, long-poll API, hijack, memcached stats": "not exercised",
+	}
+	properties["C35"] = &property{id: "C35", engine: "rpc", level: "fault_enumeration",
+		configs: []config{
+			{name: "frame-faultfree", build: "rpc", params: map[string]any{"kind": "frame", "faults": "none"}, quick: tierCfg{wallSec: 8, detPct: 3}, thorough: tierCfg{wallSec: 240, detPct: 1}},
+			{name: "frame-faults", build: "rpc", params: map[string]any{"kind": "frame"}, quick: tierCfg{wallSec: 20, detPct: 3}, thorough: tierCfg{wallSec: 600, detPct: 1}},
+			{name: "frame-enumerate", build: "rpc", params: map[string]any{"kind": "frame", "enumerate": true}, quick: tierCfg{wallSec: 10}, thorough: tierCfg{wallSec: 1200}},
+		},
+		rule: "each evaluation is one scenario: two real PacketConns over a simulated byte stream (encryption none / AES forced / AES because untrusted / none because trusted subnet; protocol 0,1,2; read/write buffers 1..4096; 1..30 packets per direction of length 0..3000 written through a seeded mix of WritePacket, WritePacket2, NoFlush+Flush and header/body.../trailer with seeded body splits; stream segmentation 1..1500 bytes, short reads, latency jitter; the four goroutines interleaved by the token scheduler). Fault-free: each reader must return exactly the written sequence then io.EOF. frame-faults: one corruption (seeded offset after the handshake, masks 0x01/0x80/0xFF/one bit/random) or one reset per evaluation; the reader must never return an altered packet and must report an error. frame-enumerate: for each sampled small scenario EVERY byte offset after the handshake of both directions x masks {0x01,0x80,0xFF} is re-run under the same schedule tape (the single-fault space of that scenario is enumerated; 'faulted re-runs' in the counters). Non-trivial = at least one contended scheduling decision and at least one packet round-tripped; distinct = distinct schedule+fault signature.",
+		assumptions: []string{stdAssume, "a corrupted cipher block could be accepted by the 32-bit CRC with probability 2^-32 (the seeded crypto/rand makes even that replayable)",
+			"'without the encrypted handshake' = the unencrypted outcome of the nonce/handshake exchange (a connection cannot carry packets before it)", "ping/pong timeouts are not part of the framing workload (read timeout 0)"},
+		components: rpcComponents,
+	}
+
+	callsAssume := []string{stdAssume, "token hand-off hides data races: the race clause of C38 is decided by config rpc-race (un-rewritten goroutine scheduling, -race)",
+		"RPC over UDP, long-poll API, hijack and memcached-stats paths are not exercised", "liveness is judged only after the last fault: 12 simulated minutes without completion while the server serves and every gate is open"}
+	properties["C38"] = &property{id: "C38", engine: "rpc", level: "exploration",
+		configs: []config{
+			{name: "calls-faultfree", build: "rpc", params: map[string]any{"kind": "calls", "focus": "C38", "faults": "none"}, quick: tierCfg{wallSec: 15, detPct: 3}, thorough: tierCfg{wallSec: 600, detPct: 1}},
+			{name: "calls-faults", build: "rpc", params: map[string]any{"kind": "calls", "focus": "C38"}, quick: tierCfg{wallSec: 30, detPct: 3}, thorough: tierCfg{wallSec: 1500, detPct: 1}},
+		},
+		rule: "each evaluation is one simulated run: 1..2 real rpc.Server and 1..3 real rpc.Client over the simulated network (tcp4 loopback / tcp4 non-loopback = AES required / unix; forced encryption on/off; protocol 0..2; connection buffers 1..2048), 1..16 concurrent calls (Do and DoCallback; TL1/TL2; actor id; seeded request/response extras; handlers echo / rpc error / plain error / panic / gated by the simulator; context deadlines, custom timeouts, caller cancellation at a seeded step, FailIfNoConnection), each carrying a unique token; faults: connection reset, stall (ping/pong and timeouts), dial refusal, Server.Shutdown/Close and Client.Close at seeded simulated times with calls in flight; per-run knobs: stream segmentation, short reads, socket capacity (write blocking), sync.Pool policy, map order, Cond wake order, scheduler strategy, clock-advance probability. Oracle per completed call and bounded-liveness/wind-down oracle at the end (see DESIGN §3.3). Non-trivial = a contended scheduling decision happened and at least one call completed; distinct = distinct schedule+fault signature.",
+		assumptions: callsAssume, components: rpcComponents,
+	}
+
+	properties["C39"] = &property{id: "C39", engine: "rpc", level: "exploration",
+		configs: []config{
+			{name: "limits-faultfree", build: "rpc", params: map[string]any{"kind": "calls", "focus": "C39", "faults": "none"}, quick: tierCfg{wallSec: 20, detPct: 3}, thorough: tierCfg{wallSec: 900, detPct: 1}},
+			{name: "limits-faults", build: "rpc", params: map[string]any{"kind": "calls", "focus": "C39"}, quick: tierCfg{wallSec: 15, detPct: 3}, thorough: tierCfg{wallSec: 600, detPct: 1}},
+		},
+		rule: "each evaluation is one simulated run of the C38 workload biased to load: servers with MaxWorkers 1..3, RequestBufSize 32..128 and RequestMemoryLimit 1..4 buffers, 2..40 concurrent requests of seeded sizes (0..3 buffers) from 1..3 clients, most handlers held at a gate that the simulator opens at a seeded simulated time (so the overlap is the simulator's decision). Oracle: at every handler entry the number of executing handlers <= MaxWorkers; at every handler entry and at every quiescent point of the scheduler the request memory accounted by the server's semaphore <= RequestMemoryLimit (read through an overlay-added accessor); bounded liveness: once gates open every call completes (C38 oracle), which turns an accounting leak into a stuck call. Non-trivial = a contended scheduling decision and at least one completed call; distinct = distinct schedule+fault signature.",
+		assumptions: append([]string{"MaxWorkers <= 0 (pool disabled by documentation) is outside the property and not generated"}, callsAssume...), components: rpcComponents,
+	}
+	properties["C40"] = &property{id: "C40", engine: "rpc", level: "exploration",
+		configs: []config{
+			{name: "extras-faultfree", build: "rpc", params: map[string]any{"kind": "calls", "focus": "C40", "faults": "none"}, quick: tierCfg{wallSec: 15, detPct: 3}, thorough: tierCfg{wallSec: 600, detPct: 1}},
+			{name: "extras-faults", build: "rpc", params: map[string]any{"kind": "calls", "focus": "C40"}, quick: tierCfg{wallSec: 15, detPct: 3}, thorough: tierCfg{wallSec: 600, detPct: 1}},
+		},
+		rule: "each evaluation is one simulated run of the C38 workload; every call carries a seeded RequestExtra (any subset of 20 optional fields incl. maps, vectors, trace context, execution context), actor id and TL1/TL2 body format, every handler sets a seeded ResponseExtra (any subset of 9 field groups) or an error code/description. Oracle: canonical serialisation (WriteTL1) of what the handler observed == what the client set, after exactly the documented normalisations (CustomTimeoutMs derived from the context deadline / explicit zero cleared; response extra masked by the request's flag bits; error code 0 becomes Unknown; plain errors arrive as Unknown with their text; panics as Internal); actor id and body format unchanged. The property has no fault of its own: the claim is that it holds end-to-end through the concurrent client and server under every explored schedule, pool reuse pattern (LIFO reuse exposes stale extras), reconnect and fault. Non-trivial = a contended scheduling decision and at least one completed call; distinct = distinct schedule+fault signature.",
+		assumptions: append([]string{"no_result requests are refused by the client and not generated", "the codec-level statement (pure function of the input) is not separately claimed"}, callsAssume...), components: rpcComponents,
+	}
 }
